@@ -201,6 +201,30 @@ def as_collection(parts, mode):
 
 
 # ------------------------------------------------------------------ family 1: Cuboid = sum of cuboids
+def edge_prolongation_observers(rng, half, n=3, dmax=1e-5):
+    """observers ON and within 1e-9 .. dmax (relative to their distance from the corner) of the straight prolongation
+    of one of the 12 edges of the box [-half, half], outside the body: off every surface.  The Cuboid closed form has
+    indeterminate forms there in seven of the eight octants (the implementation avoids them by mirroring the observer),
+    the triangle closed form switches to its edge-line formula; both are accurate to < 1e-11 on the unchanged tree."""
+    out = []
+    for _ in range(n):
+        ax = rng.randrange(3)
+        o1, o2 = [k for k in range(3) if k != ax]
+        u = rnd(rng, 0.05, 1.5)
+        r = u * 2 * half[ax]
+        p = [0.0, 0.0, 0.0]
+        p[o1] = rng.choice([-1, 1]) * half[o1]
+        p[o2] = rng.choice([-1, 1]) * half[o2]
+        p[ax] = rng.choice([-1, 1]) * (half[ax] + r)
+        if rng.random() < 0.6:
+            d = 10 ** rng.uniform(-9.0, math.log10(dmax))
+            ang = rng.uniform(0, 2 * math.pi)
+            p[o1] += d * r * math.cos(ang)
+            p[o2] += d * r * math.sin(ang)
+        out.append(p)
+    return out
+
+
 def gen_cuboid_partition(rng):
     dim = [rnd(rng, 0.4, 3.0) for _ in range(3)]
     n = [rng.choice([1, 1, 2, 2, 3, 4]) for _ in range(3)]
@@ -231,6 +255,8 @@ def gen_cuboid_partition(rng):
             if off_planes(p[q], edges[q], margin) and off_planes(p[o], edges[o], margin) \
                     and off_planes(p[ax], edges[ax][1:-1], margin):
                 obs.append(p)
+    if rng.random() < 0.4:
+        obs += edge_prolongation_observers(rng, [d / 2 for d in dim])
     return {"family": "cuboid_partition", "dim": dim, "edges": edges, "pol": gen_pol(rng), "pose": gen_pose(rng),
             "obs": obs, "mode": rng.choice(MODES)}
 
@@ -363,7 +389,11 @@ def gen_cylinder_partition(rng):
         obs.append([r * math.cos(math.radians(ph)), r * math.sin(math.radians(ph)), z])
     if rng.random() < 0.5:
         obs += special_cyl_observers(rng, re_, pe, ze, margin)
+    phishift = 0.0
+    if kind in ("segment", "hollow") and rng.random() < 0.2:
+        phishift = 360.0 * rng.choice([-2, -1, 1, 2])     # the same body: section angles are periodic
     return {"family": "cylinder_partition", "kind": kind, "r": re_, "phi": pe, "z": ze, "pol": gen_pol(rng),
+            "phishift": phishift,
             "pose": gen_pose(rng), "obs": obs, "mode": rng.choice(MODES)}
 
 
@@ -374,7 +404,8 @@ def build_cylinder_partition(c):
     if c["kind"] in ("cylinder", "full_segment"):
         whole = magpy.magnet.Cylinder(polarization=pol, dimension=(2 * r2, h), **whole_pose(pose))
     else:
-        whole = magpy.magnet.CylinderSegment(polarization=pol, dimension=(r1, r2, h, pe[0], pe[-1]),
+        sh = c.get("phishift", 0.0)
+        whole = magpy.magnet.CylinderSegment(polarization=pol, dimension=(r1, r2, h, pe[0] + sh, pe[-1] + sh),
                                              **whole_pose(pose))
     parts = []
     for i in range(len(re_) - 1):
@@ -467,6 +498,8 @@ def gen_cuboid_repr(rng):
             if off_planes(p[q], [-half[q], half[q]], margin) and \
                     not any(abs(float(n @ np.array(p)) - off) <= margin for n, off in planes):
                 obs.append(p)
+    if rep in ("mesh", "mesh_shuffled", "triangles") and rng.random() < 0.4:
+        obs += edge_prolongation_observers(rng, half, dmax=3e-7)      # inside the edge-line regime of the triangle formula
     if rep in ("mesh", "mesh_shuffled", "triangles") and rng.random() < 0.5:
         Vc = np.array(CUBE_V, dtype=float) * np.array(half)
         obs += edge_extension_observers(rng, [[Vc[i] for i in f] for f in CUBE_F])
@@ -615,6 +648,8 @@ def gen_mesh_convert(rng):
         obs.append(p)
     if conv == "hull_cuboid" and rng.random() < 0.5:
         obs += edge_extension_observers(rng, tris)
+    if conv == "hull_cuboid" and rng.random() < 0.4:
+        obs += edge_prolongation_observers(rng, [x / 2 for x in dim], dmax=3e-7)
     pose = gen_pose(rng)
     npath = rng.choice([1, 1, 1, 2, 3]) if conv == "to_TriangleCollection" else 1
     path = [[rnd(rng, -1, 1) for _ in range(3)] for _ in range(npath - 1)]
@@ -1061,6 +1096,8 @@ def _variants(c):
         v(pose={"pos": [0.0, 0.0, 0.0], "rotvec": [0.0, 0.0, 0.0]})
         v(pose={"pos": c["pose"]["pos"], "rotvec": [0.0, 0.0, 0.0]})
         v(pose={"pos": [0.0, 0.0, 0.0], "rotvec": c["pose"]["rotvec"]})
+    if c.get("phishift"):
+        v(phishift=0.0)
     if c.get("scale", 1.0) != 1.0:
         v(scale=1.0)
     if c.get("prot") or c.get("pmove"):
@@ -1137,6 +1174,11 @@ def shrink(c, same):
 def position_tags(c, i):
     """how the (shrunk) observer sits relative to the faces of the whole body (cylinder family): bore / axis /
     on the plane, cylinder or half plane of a face"""
+    if c["family"] in ("cuboid_partition", "cuboid_repr", "mixed_partition") or c.get("dim"):
+        p, half = c["obs"][i], [d / 2 for d in c["dim"]]
+        on = [abs(abs(p[k]) - half[k]) <= 1e-4 * max(half) for k in range(3)]
+        out = [abs(p[k]) > half[k] * (1 + 1e-3) for k in range(3)]
+        return ["edge-line"] if sum(on) == 2 and sum(out) == 1 and not any(o and q for o, q in zip(on, out)) else []
     if c["family"] != "cylinder_partition":
         return []
     p = c["obs"][i]
@@ -1174,6 +1216,9 @@ def signature(c, fl, failed=None):
             trig.append(",".join(tags))
         if c["family"] == "cylinder_partition" and fld in "BH":
             trig.append("pol-" + pol_class(c["pol"]))
+        sh = c.get("phishift", 0.0)
+        if sh and c["family"] == "cylinder_partition" and (c["phi"][-1] + sh > 360.0 or c["phi"][0] + sh < -360.0):
+            trig.append("section-angles-beyond-360")
         if scale_tag(c):
             trig.append(scale_tag(c))
     return fl["clause"] + "/" + ":".join(trig)
